@@ -22,7 +22,7 @@ def ties(ctx):
 def search(ctx, reason):
     t = run_conc(ctx, 'c20', 'threads', 6000, seed_offset=52)
     for f in t.failures:
-        if f.kind == 'oracle':
+        if f.kind == 'oracle' and f.key not in listed_keys():
             return f
     return None
 
